@@ -346,7 +346,9 @@ class MultiCategoricalEmbeddingEncoder(StypeEncoder):
         super().init_modules()
         self.embs = ModuleList([])
         for stats in self.stats_list:
-            num_categories = len(stats[StatType.MULTI_COUNT][0])
+            # NOTE: A column without any category still gets one row, so that
+            # the index `NAStrategy.ZEROS` imputes stays inside the table.
+            num_categories = max(len(stats[StatType.MULTI_COUNT][0]), 1)
             # 0-th category is for NaN.
             self.embs.append(
                 EmbeddingBag(
